@@ -108,33 +108,67 @@ def main():
                     os.unlink(lp)
                 os.symlink(start, lp)
                 start = lp
-            try:
-                kw = {'allow_xdev': c['xdev'], 'allow_compressed': c['compr']}
-                if c.get('defaults'):
-                    # the documented defaults, as the command-line tool relies on them: crossing allowed, compressed names not considered
-                    if c['xdev']:
-                        del kw['allow_xdev']
-                    if not c['compr']:
-                        del kw['allow_compressed']
-                r = find_top_level_manifest(start, **kw)
-                if r is None:
-                    res = ['ok', None]
-                elif c.get('via_link'):
-                    # which physical directory does the returned path name?
-                    res = ['weird', r]
-                    for j in range(0, c['start'] + 1):
-                        try:
-                            if os.path.lexists(r) and os.path.samefile(os.path.dirname(r) or '.', dirs[j]):
-                                res = ['ok', [c['start'] - j, os.path.basename(r)]]
-                        except OSError:
-                            pass
-                else:
-                    rel = os.path.relpath(r, start).split('/')
-                    res = ['ok', [sum(1 for x in rel if x == '..'), rel[-1]]]
-                    if os.path.join(os.path.realpath(os.path.dirname(r)), os.path.basename(r)) != os.path.normpath(os.path.join(start, *rel)):
+            kw = {'allow_xdev': c['xdev'], 'allow_compressed': c['compr']}
+            if c.get('defaults'):
+                # the documented defaults, as the command-line tool relies on them: crossing allowed, compressed names not considered
+                if c['xdev']:
+                    del kw['allow_xdev']
+                if not c['compr']:
+                    del kw['allow_compressed']
+
+            def ask(start, dirs=dirs, c=c, kw=kw):
+                try:
+                    r = find_top_level_manifest(start, **kw)
+                    if r is None:
+                        res = ['ok', None]
+                    elif c.get('via_link'):
+                        # which physical directory does the returned path name?
                         res = ['weird', r]
-            except Exception as e:
-                res = ['err', type(e).__name__, getattr(e, 'errno', None)]
+                        for j in range(0, c['start'] + 1):
+                            try:
+                                if os.path.lexists(r) and os.path.samefile(os.path.dirname(r) or '.', dirs[j]):
+                                    res = ['ok', [c['start'] - j, os.path.basename(r)]]
+                            except OSError:
+                                pass
+                    else:
+                        rel = os.path.relpath(r, start).split('/')
+                        res = ['ok', [sum(1 for x in rel if x == '..'), rel[-1]]]
+                        if os.path.join(os.path.realpath(os.path.dirname(r)), os.path.basename(r)) != os.path.normpath(os.path.join(start, *rel)):
+                            res = ['weird', r]
+                except Exception as e:
+                    res = ['err', type(e).__name__, getattr(e, 'errno', None)]
+                return res
+            chrooted = False
+            if c.get('chroot') and not c.get('via_link') and c['boundary'] == 0:
+                # the outermost level l1 is made the root directory of a child process: a repository at '/'
+                inner = '/' + '/'.join(f'l{d}' for d in range(2, c['start'] + 1))
+                rfd, wfd = os.pipe()
+                pid = os.fork()
+                if pid == 0:
+                    code = 1
+                    try:
+                        os.close(rfd)
+                        os.chroot(dirs[1])
+                        os.chdir('/')
+                        os.write(wfd, json.dumps(ask(inner)).encode())
+                        code = 0
+                    finally:
+                        os._exit(code)
+                os.close(wfd)
+                data = b''
+                while True:
+                    chunk = os.read(rfd, 65536)
+                    if not chunk:
+                        break
+                    data += chunk
+                os.close(rfd)
+                os.waitpid(pid, 0)
+                if data:
+                    res = json.loads(data)
+                    chrooted = True
+                    start = inner
+            if not chrooted:
+                res = ask(start)
             devs = [os.stat(d).st_dev for d in dirs]
             fdevs = []
             for d, lv in zip(dirs[1:], c['levels']):
@@ -145,7 +179,7 @@ def main():
                     except OSError:
                         pass
                 fdevs.append(fd)
-            out.append({'res': res, 'devs': devs, 'fdevs': fdevs, 'comps': start.strip('/').split('/')})
+            out.append({'res': res, 'devs': devs, 'fdevs': fdevs, 'comps': [x for x in start.strip('/').split('/') if x], 'chrooted': chrooted})
         print(json.dumps({'results': out, 'ancestors': anc, 'base': base, 'realisation': realisation}))
     finally:
         for m in reversed(mounted):
